@@ -75,11 +75,13 @@ func (v *VerifRM) Report(vbID uint16, replica int, vbUUID gocbcore.VbUUID, persi
 	}
 }
 
-// Absent marks one copy as not listed in the cluster map (what markAbsentInstances does for it).
+// Absent marks one copy as not listed in the cluster map (what markAbsentInstances does for it) and dispatches the minimum
+// over the remaining copies (what the observe round after a reconfiguration arrives at when the listed copies answer as before).
 func (v *VerifRM) Absent(vbID uint16, replica int) {
 	replicas, _ := v.r.persistedSeqNos.Load(vbID)
 	if len(replicas) > replica {
 		replicas[replica].SetAbsent()
+		v.r.persistSeqNoDispatcher(&models.PersistSeqNo{VbID: vbID, SeqNo: v.r.getMinSeqNo(vbID)})
 	}
 }
 
